@@ -102,6 +102,7 @@ def check_case(ctx, case):
     def cat():
         return S.catalog(region)
 
+    MAXLOG = max([abs(math.log(float(x) * k)) for x in ra.ravel().tolist() + rb.ravel().tolist() if x > 0] + [1.0])
     # ---------------- paired T
     res = {}
     for tag, f1, f2, dd, n1, n2 in (("AB", fa, fb, d, na, nb), ("BA", fb, fa, [-v for v in d], nb, na), ("AA", fa, fa, [0.0] * N, na, na)):
@@ -129,9 +130,12 @@ def check_case(ctx, case):
         # statistic and interval only where the variance is well-conditioned (all-equal differences give 0/0)
         if var > 1e-6 * (1e-300 + math.fsum(v * v for v in dd) / max(N - 1, 1)):
             ctx.count("T_statistic_and_interval_compared")
-            if not rel(gt, t, 1e-6):
-                ctx.violation("T:t_statistic_wrong", {"order": tag, "got": gt, "want": t})
-            if not (rel(glo, lo, 1e-6, 1e-9 * scale_ig) and rel(ghi, hi, 1e-6, 1e-9 * scale_ig)):
+            # each difference is a difference of two logs and carries their rounding (~eps |log rate|); when the differences
+            # themselves are tiny (1e-9) that noise is what limits the statistic: tolerance relative to the spread of the differences
+            rt = 1e-6 + 40 * 2.3e-16 * MAXLOG / math.sqrt(var)
+            if not rel(gt, t, rt):
+                ctx.violation("T:t_statistic_wrong", {"order": tag, "got": gt, "want": t, "rel_tol": rt})
+            if not (rel(glo, lo, rt, 1e-9 * scale_ig) and rel(ghi, hi, rt, 1e-9 * scale_ig)):
                 ctx.violation("T:interval_wrong", {"order": tag, "got": [glo, ghi], "want": [lo, hi]})
     if "AB" in res and "BA" in res:
         a, b = res["AB"], res["BA"]
@@ -264,9 +268,10 @@ def check_case(ctx, case):
                 ctx.violation("binaryT:critical_value_wrong", {"got": gtc, "want": tc, "n_active": Na})
             if var > 1e-6 * (1e-300 + math.fsum(v * v for v in da) / max(Na - 1, 1)):
                 ctx.count("binaryT_statistic_and_interval_compared")
-                if not rel(gt, t, 1e-6):
-                    ctx.violation("binaryT:t_statistic_wrong", {"got": gt, "want": t, "n_active": Na})
-                if not (rel(glo, lo, 1e-6, 1e-9 * sc) and rel(ghi, hi, 1e-6, 1e-9 * sc)):
+                rt_b = 1e-6 + 40 * 2.3e-16 * MAXLOG / math.sqrt(var)
+                if not rel(gt, t, rt_b):
+                    ctx.violation("binaryT:t_statistic_wrong", {"got": gt, "want": t, "n_active": Na, "rel_tol": rt_b})
+                if not (rel(glo, lo, rt_b, 1e-9 * sc) and rel(ghi, hi, rt_b, 1e-9 * sc)):
                     ctx.violation("binaryT:interval_wrong", {"got": [glo, ghi], "want": [lo, hi]})
         o2 = call(Bn.binary_paired_t_test, fb, fa, cat(), alpha, scale)     # positionally
         if o2.ok and abs(float(o2.value.observed_statistic) + got) > 1e-9 * sc + 1e-12:
